@@ -145,3 +145,24 @@ Definition check_reader (c : (bool * Z * Z * wstate payload) * observed * bool) 
    words (C08_written_text_wf) and the numeric strings are finite numbers (C08_numbers_finite) *)
 Definition text_ok (c : (bool * Z * Z * wstate payload) * observed * bool) : bool :=
   let '((_, _, _, w), _, _) := c in words_okb w && state_numbers_okb w.
+
+(* construct_volume_t4's helper-plane insertion (Model.insert_helpers) against the snapshot:
+   the surface dictionary is its first entries followed by the two planes PLANEX 1 /
+   PLANEX -1 under the numbers max+2, max+3, and these are the union ids *)
+Definition is_helper (s : surface payload) (x : float) : bool :=
+  payload_eqb (s_eq s) ("PLANEX", [x], None).
+
+Definition check_helpers (c : (bool * Z * Z * wstate payload) * observed * bool) : bool :=
+  let '((_, u0, u1, w), _, _) := c in
+  let surfs := w_surfs w in
+  let n := List.length surfs in
+  match skipn (n - 2) surfs with
+  | [(k0, h0); (k1, h1)] =>
+      match insert_helpers (firstn (n - 2) surfs) h0 h1 with
+      | Ok (surfs', a, b) =>
+          list_eqb Z.eqb (keys surfs') (keys surfs) && (a =? u0)%Z && (b =? u1)%Z
+          && (k0 =? u0)%Z && (k1 =? u1)%Z && is_helper h0 1%float && is_helper h1 (-1)%float
+      | Err _ => false
+      end
+  | _ => false
+  end.
